@@ -25,7 +25,7 @@ let ust_i = function U_PRE -> 0 | U_LABEL -> 1 | U_LO -> 2 | U_HI -> 3 | U_BODY 
 let rst_i = function R_PRE -> 0 | R_TYPE -> 1 | R_LO -> 2 | R_HI -> 3 | R_HCRC -> 4 | R_BODY -> 5 | R_CRC -> 6
 
 (* generic over the parser: recv function, initial state, state printer, reference framer *)
-let run_gen ?(big = false) recv init st_s summ refm stream parts =
+let run_gen ?(big = false) ?(post = fun (o : msg list) -> o) recv init st_s summ refm stream parts =
   let b = Buffer.create 256 in
   let agree = ref true in
   List.iteri (fun i part ->
@@ -46,7 +46,7 @@ let run_gen ?(big = false) recv init st_s summ refm stream parts =
     if m <> refm then agree := false;
     let cnt = ref 0 in
     let tr = List.rev (List.rev_map (fun r -> match r with
-      | Done (s, out) -> cnt := !cnt + List.length out; Printf.sprintf "%d@%s" !cnt (st_s s)
+      | Done (s, out) -> cnt := !cnt + List.length (post out); Printf.sprintf "%d@%s" !cnt (st_s s)
       | Oob -> "OOB" | OutOfFuel -> "OUTOFFUEL") trace) in
     Buffer.add_string b (Printf.sprintf "m%d=%s;s%d=%s;" i m i (join "," tr))) parts;
   Buffer.add_string b (Printf.sprintf "agree=%s" (bool01 !agree));
@@ -111,6 +111,11 @@ let handle (p : string) : string =
     let parts = String.split_on_char '/' parts in
     let (r, refm) = match proto with
       | "usbpro" -> run_proto proto u_recv u_init (fun s -> string_of_int (ust_i s.u_st)) ref_usb stream parts
+      | "robew" ->
+        (* the real RobeWidget: only frames whose label maps to HandleDmxFrame are observable *)
+        run_gen ~post:(robe_dispatch []) r_recv r_init (fun s -> string_of_int (rst_i s.r_st))
+          (fun out _ -> join "," (List.map (msg_s proto) (robe_dispatch [] out)))
+          (join "," (List.map (msg_s proto) (robe_dispatch [] (ref_robe stream)))) stream parts
       | "robe" -> run_proto proto r_recv r_init (fun s -> string_of_int (rst_i s.r_st)) ref_robe stream parts
       | p when String.length p >= 3 && String.sub p 0 3 = "opc" ->
         (* "opc" = every channel has a callback, "opc@-" = none, "opc@0,5,255" = those *)
@@ -120,12 +125,25 @@ let handle (p : string) : string =
           else let l = List.map ios (String.split_on_char ',' (String.sub p 4 (String.length p - 4))) in
             (fun ch -> List.mem (int_of_n ch) l) in
         run_proto "opc" (f_recv reg) f_init (fun s -> string_of_int (int_of_n s.f_off)) (ref_opc reg) stream parts
+      | p when String.length p >= 8 && String.sub p 0 8 = "acnroot@" ->
+        (* a real RootInflator behind the transport, child inflators for the listed root vectors *)
+        let spec = String.sub p 8 (String.length p - 8) in
+        let l = if spec = "-" then [] else List.map ios (String.split_on_char ',' spec) in
+        let reg (v : n) = List.mem (int_of_n v) l in
+        let pr ((v, pl) : msg) = Printf.sprintf "%d:%s" (int_of_n v) (hex_of_bytes pl) in
+        run_gen ~post:(root_deliver reg) a_recv a_init
+          (fun s -> if s.a_valid then Printf.sprintf "%d/%d"
+              (match s.a_st with A_PRE -> 0 | A_FLAGS -> 1 | A_LEN -> 2 | A_PDU -> 3) (int_of_n s.a_out)
+            else "X")
+          (fun out _ -> join "," (List.map pr (root_deliver reg out)))
+          (join "," (List.map pr (root_deliver reg (ref_acn stream)))) stream parts
       | "acn" -> run_proto proto a_recv a_init
                    (fun s -> if s.a_valid then Printf.sprintf "%d/%d"
                        (match s.a_st with A_PRE -> 0 | A_FLAGS -> 1 | A_LEN -> 2 | A_PDU -> 3) (int_of_n s.a_out)
                      else "X") ref_acn stream parts
       | _ -> ("bad-op", "-") in
-    let pc = if String.length proto > 3 && String.sub proto 0 4 = "opc@" then "opc-some-unregistered" else proto in
+    let pc = if String.length proto > 3 && String.sub proto 0 4 = "opc@" then "opc-some-unregistered"
+             else if String.length proto > 7 && String.sub proto 0 8 = "acnroot@" then "acn-root-inflator" else proto in
     r ^ ";class=" ^ classify pc stream refm (List.length parts)
   | _ -> "bad-op"
 let () = vh_run handle
